@@ -7,4 +7,4 @@ ASSUMPTIONS = _bc.ASSUMPTIONS
 
 
 def run(ck):
-    _bc.run_bc(ck, "c16", set("c16_bound".split()))
+    _bc.run_bc(ck, "c16", set("c16_bound c16_slots_not_lost".split()))
